@@ -114,6 +114,24 @@ pub mod degenerate {
     pub const MORE: [usize; 6] = [Z3.len(), Z3B.len(), WFLAT.len(), PFLAT.len(), UFLAT.len(), WFLAT[3] as usize];
     pub const LENS: [usize; 9] = [EMPTY.0.len(), EMPTY.1.len(), E0.as_slice().len(), UNITS.0.len(), UNITS.1.len(), PAD.0.len(), PAD.1.len(), W.0.len(), W.1.len()];
     pub const VALS: [u32; 4] = [PAD.0[0].as_slice()[1].1 as u32, PAD.1[0].0 as u32, W.0[1].as_slice()[0], W.1[0]];
+    // const_transmute between types of equal size and *different alignment* (the const evaluator checks the alignment of every read), and the
+    // repeat form of arr! for a length that has no `Const<N>` counterpart (beyond 1024)
+    pub const WORD: u32 = unsafe { generic_array::const_transmute::<[u8; 4], u32>([0x11, 0x22, 0x33, 0x44]) };
+    pub const WORDS: GenericArray<u32, U2> = unsafe { generic_array::const_transmute::<GenericArray<u8, U8>, GenericArray<u32, U2>>(GenericArray::from_array([1, 2, 3, 4, 5, 6, 7, 8])) };
+    pub const BYTES: GenericArray<u8, U8> = unsafe { generic_array::const_transmute::<GenericArray<u64, U1>, GenericArray<u8, U8>>(GenericArray::from_array([0x0807060504030201u64])) };
+    const LONG: GenericArray<u8, generic_array::typenum::Sum<U1024, U1>> = arr![0x5A; generic_array::typenum::Sum<U1024, U1>];
+    pub const LONG_ENDS: [u8; 3] = [LONG.as_slice()[0], LONG.as_slice()[1024], (LONG.as_slice().len() == 1025) as u8];
+    harness! { unwind 6, fn transmutes() {
+        assert!(WORD == u32::from_ne_bytes([0x11, 0x22, 0x33, 0x44]), "const_transmute to a more aligned type differs from the bytes");
+        let i = any_upto(1);
+        assert!(WORDS[i] == u32::from_ne_bytes([4 * i as u8 + 1, 4 * i as u8 + 2, 4 * i as u8 + 3, 4 * i as u8 + 4]));
+        let j = any_upto(7);
+        assert!(BYTES[j] == 0x0807060504030201u64.to_ne_bytes()[j]);
+        let rt: u32 = unsafe { generic_array::const_transmute::<[u8; 4], u32>([0x11, 0x22, 0x33, 0x44]) };
+        assert!(rt == WORD, "const_transmute at run time differs from the const item");
+        assert!(LONG_ENDS[0] == 0x5A && LONG_ENDS[1] == 0x5A && LONG_ENDS[2] == 1);
+        kani_cover!(true);
+    }}
     harness! { unwind 6, fn agrees() {
         let i = any_upto(8);
         let want: [usize; 9] = [0, 0, 0, 2, 2, 1, 1, 2, 1];
